@@ -38,7 +38,7 @@ func (endpoint *Pairing) ServeHTTP(response http.ResponseWriter, request *http.R
 	var in util.Container
 	var out util.Container
 
-	if in, err = util.NewTLV8ContainerFromReader(request.Body); err == nil {
+	if in, err = util.NewTLV8ContainerFromReader(http.MaxBytesReader(response, request.Body, maxRequestBodySize)); err == nil {
 		out, err = endpoint.controller.Handle(in)
 	}
 
